@@ -11,7 +11,7 @@ from collections import Counter
 from pathlib import Path
 
 from ..core import bfs
-from ..core.runner import HarnessError
+from ..core.runner import HarnessError, guarded
 from ..ref import formats as F
 
 LEVEL = "model_checking"
@@ -535,7 +535,7 @@ def run(ctx):
     cli = [(i, inp, fs, rm) for i, (inp, fs, rm) in enumerate(itertools.product(inputs, flagsets, [None, "H", "CH", "keep:H,H2", "keep:H, C, CH"]))]
     ncli = 0
     with mp.get_context("fork").Pool(ctx.workers, maxtasksperchild=1) as pool:
-        for n, v in pool.imap_unordered(cli_case, cli):
+        for n, v in pool.imap_unordered(guarded(cli_case), cli):
             ncli += n
             ctx.absorb(v)
     states = sum(r.states for r in results.values())
